@@ -258,6 +258,24 @@ LISTC = {
 }
 
 
+def write_replay_tables(here):
+    """the same tables in Rust, for `vp-replay FACTS` (validation of the parser facts on real trees)"""
+    import re
+    L = ['// GENERATED by contracts/gen_converters.py (GRAMMAR / NO_EXPR_PARENTS, prelude/wspec.rs): tables behind the parser facts', 'use typst_syntax::SyntaxKind as K;',
+         "pub fn listed(parent: K) -> Option<&'static [K]> {", '    Some(match parent {']
+    for pk, ks in GRAMMAR.items():
+        L.append('        K::%s => &[%s],' % (pk, ', '.join('K::' + k for k in ks)))
+    L += ['        _ => return None,', '    })', '}', 'pub fn no_expr_parent(k: K) -> bool { matches!(k, %s) }' % ' | '.join('K::' + k for k in NO_EXPR_PARENTS)]
+    w = open(os.path.join(here, '..', 'prelude', 'wspec.rs')).read()
+    m = re.search(r'pub open spec fn is_inner_kind\(k: SyntaxKind\) -> bool \{\s*matches!\(k, (.*?)\)\s*\}', w, re.S)
+    kinds = re.findall(r'SyntaxKind::(\w+)', m.group(1))
+    L.append('pub fn is_inner_kind(k: K) -> bool { matches!(k, %s) }' % ' | '.join('K::' + k for k in kinds))
+    fx = re.search(r'pub open spec fn fixed_text.*?\n\}', w, re.S).group(0)
+    pairs = re.findall(r'SyntaxKind::(\w+) \{ Some\("([^"]*)"@\) \}', fx)
+    L.append("pub fn fixed_text(k: K) -> Option<&'static str> { Some(match k { %s _ => return None }) }" % ' '.join('K::%s => "%s",' % (a, b) for a, b in pairs))
+    open(os.path.join(here, '..', 'replay', 'src', 'grammar_gen.rs'), 'w').write('\n'.join(L) + '\n')
+
+
 def main():
     out = ['# GENERATED by contracts/gen_converters.py -- common contract bundle of the convert_* methods (do not edit by hand)', '']
     for (f, fn, p, kind) in T:
@@ -299,6 +317,8 @@ def main():
             out.append('    - !is_comment_kind(%s.kind_s())' % cp)
             out.append('  ensures')
             out.append('    - [producer_docs_closed C04 C06 C12] fitem.0 matches Some(rp) ==> doc_closed(rp.doc@, self.unit_s())')
+            if fn == 'convert_list_item_like':
+                out.append('    - [paragraph_break_terminates_a_line_comment C04 C06] %s.kind_s() == SyntaxKind::Parbreak ==> (fitem.0 matches Some(rp) && t_closes(rp.doc@))' % cp)
             if fn in W_PROVED:
                 noexpr = all(pk in NO_EXPR_PARENTS for pk in FLOW_NODEKINDS.get(fn, ['?']))
                 dom = ' || '.join([('trivia_child_kind(%s.kind_s())' if noexpr else 'common_child_kind(%s.kind_s())') % cp] + ['%s.kind_s() == SyntaxKind::%s' % (cp, k) for k in flow_domain(fn)])
@@ -326,6 +346,7 @@ def main():
         out.append('')
     here = os.path.dirname(os.path.abspath(__file__))
     write_grammar(here)
+    write_replay_tables(here)
     with open(os.path.join(here, 'core', 'gen_converters.vc'), 'w') as fh:
         fh.write('\n'.join(out))
     print('wrote %d converter contracts' % len(T))
